@@ -795,3 +795,126 @@ def run_chain_models(models: List[Dict[str, Any]], n_values: int, timeout: int =
 
     with concurrent.futures.ThreadPoolExecutor(max_workers=min(8, lib.NCPU)) as pool:
         return list(pool.map(one, models))
+
+
+# --------------------------------------------------------------------------------------
+# "sites" models: hand-built meta-models for the shapes the random generator rarely makes
+#  (i)   list properties (required and optional) whose item class is a concrete class WITH
+#        concrete descendants, an abstract class, and a leaf class;
+#  (ii)  one constrained primitive used at several sites (several classes, twice in one
+#        class) with different site-specific tightenings, in both definition orders;
+#  (iii) values constrained only by `in <constant set of primitives>` or only by the general
+#        XML-character pattern (nothing for XSD to emit).
+# They run through the ordinary model stream (mode "model" of xsd_run.py).
+# --------------------------------------------------------------------------------------
+XML_PATTERN_TEXT = "^[\\\\x09\\\\x0A\\\\x0D\\\\x20-\\\\uD7FF\\\\uE000-\\\\uFFFD\\\\U00010000-\\\\U0010FFFF]*$"
+
+
+def _cls(name: str, bases: List[str], props: List[Tuple[str, str]], invariants: List[Tuple[str, str]],
+         decorators: List[str], inherited: List[Tuple[str, str]], super_calls: List[Tuple[str, List[str]]]) -> str:
+    """A class with an explicit constructor; ``props`` are the own properties (name, type),
+    ``inherited`` the constructor arguments passed on to the bases."""
+    out = list(decorators)
+    for body, desc in invariants:
+        out.append(f'@invariant(\n    lambda self: {body},\n    "{desc}"\n)')
+    out.append(f"class {name}({', '.join(bases) if bases else 'DBC'}):")
+    out.append(f'    """Represent a {name}."""')
+    for n, t in props:
+        out.append(f"\n    {n}: {t}")
+    args = inherited + props
+    required = [(n, t) for n, t in args if not t.startswith("Optional[")]
+    optional = [(n, t) for n, t in args if t.startswith("Optional[")]
+    if args:
+        sig = ", ".join(["self"] + [f"{n}: {t}" for n, t in required] + [f"{n}: {t} = None" for n, t in optional])
+        out.append(f"\n    def __init__({sig}) -> None:")
+        for base, names in super_calls:
+            out.append(f"        {base}.__init__(self, " + ", ".join(f"{n}={n}" for n in names) + ")")
+        for n, _ in props:
+            out.append(f"        self.{n} = {n}")
+    return "\n".join(out) + "\n"
+
+
+def gen_sites_model(rng: random.Random, index: int) -> Dict[str, Any]:
+    a, b, c, d = rng.sample([2, 3, 4, 5, 6], 4)          # different site-specific maxima
+    base_min = rng.choice([1, 1, 2])
+    fns = [
+        '@verification\ndef matches_upper_start(text: str) -> bool:\n'
+        '    """Check that the text starts with a capital letter."""\n'
+        '    return match("^[A-Z][a-zA-Z]*$", text) is not None\n',
+        '@verification\ndef matches_xml_serializable_string(text: str) -> bool:\n'
+        '    """Check that the text can be written as XML."""\n'
+        f'    return match("{XML_PATTERN_TEXT}", text) is not None\n',
+    ]
+    consts = ['Allowed_codes: Set[str] = constant_set(\n    values=["alpha", "beta", "gamma delta"],\n'
+              '    description="Codes which are allowed.",\n)\n',
+              'Allowed_marks: Set[str] = constant_set(\n    values=["m1", "m2"],\n'
+              '    description="Marks which are allowed.",\n)\n']
+    cprims = [
+        f'@invariant(\n    lambda self: len(self) >= {base_min},\n    "The label shall have at least {base_min} characters."\n)\n'
+        'class Label(str, DBC):\n    """Represent a label."""\n',
+        '@invariant(\n    lambda self: matches_xml_serializable_string(self),\n    "The text shall be XML serializable."\n)\n'
+        'class Xml_text(str, DBC):\n    """Represent a text for XML."""\n',
+        '@invariant(\n    lambda self: self in Allowed_marks,\n    "The mark shall be allowed."\n)\n'
+        'class Mark(str, DBC):\n    """Represent a mark."""\n',
+    ]
+    ser = "@serialization(with_model_type=True)"
+    item_family = [
+        _cls("Item", [], [("name", "Label")],
+             [(f"len(self.name) <= {a}", f"The name shall have at most {a} characters.")], [ser], [], []),
+        _cls("Special_item", ["Item"], [("extra", "Optional[Xml_text]")], [], [],
+             [("name", "Label")], [("Item", ["name"])]),
+        _cls("Very_special_item", ["Special_item"], [("flag", "bool")], [], [],
+             [("name", "Label"), ("extra", "Optional[Xml_text]")], [("Special_item", ["name", "extra"])]),
+    ]
+    shape_family = [
+        _cls("Shape", [], [("label", "Label")], [], ["@abstract", ser], [], []),
+        _cls("Circle", ["Shape"], [("radius", "float")], [], [], [("label", "Label")], [("Shape", ["label"])]),
+        _cls("Square", ["Shape"], [("short_label", "Label"), ("long_label", "Label")],
+             [(f"len(self.short_label) <= {b}", f"The short label shall have at most {b} characters."),
+              ("matches_upper_start(self.long_label)", "The long label shall start with a capital.")],
+             [], [("label", "Label")], [("Shape", ["label"])]),
+    ]
+    leaf = [_cls("Leaf", [], [("code", "str"), ("text", "Xml_text"), ("mark", "Mark"), ("remark", "Optional[str]"),
+                              ("tags", "Optional[List[Mark]]")],
+                 [("self.code in Allowed_codes", "The code shall be allowed."),
+                  ("not (self.remark is not None) or matches_xml_serializable_string(self.remark)",
+                   "The remark shall be XML serializable.")], [], [], [])]
+    labels = [("first_label", "Label"), ("second_label", "Label"), ("free_label", "Label")]
+    rng.shuffle(labels)
+    container = [_cls("Container", [],
+                      [("items", "List[Item]"), ("shapes", "List[Shape]"), ("leaves", "List[Leaf]")] + labels
+                      + [("specials", "List[Special_item]"), ("maybe_items", "Optional[List[Item]]"),
+                         ("maybe_leaves", "Optional[List[Leaf]]"), ("maybe_shapes", "Optional[List[Shape]]")],
+                      [(f"len(self.first_label) <= {c}", f"The first label shall have at most {c} characters."),
+                       (f"len(self.second_label) <= {d}", f"The second label shall have at most {d} characters."),
+                       ("len(self.items) >= 1", "There shall be at least one item.")], [], [], [])]
+    blocks = [item_family, shape_family, leaf, container]
+    style = index % 3
+    if style == 1:
+        blocks.reverse()
+    elif style == 2:
+        rng.shuffle(blocks)
+    text = (f'"""Provide a meta-model with lists of classes and shared constrained primitives (#{index})."""\n\n\n'
+            + mmg._HEADER + '\n\n__version__ = "V0.1"\n\n__xml_namespace__ = "https://example.com/sites"\n\n\n'
+            + "\n\n".join(fns) + "\n\n" + "\n\n".join(consts) + "\n\n" + "\n\n".join(cprims) + "\n\n"
+            + "\n\n".join(c_ for blk in blocks for c_ in blk))
+    return {"index": f"sites{index}", "profile": "sites", "seed": rng.getrandbits(32), "mm": None,
+            "injected": [], "text": text, "snippets_xsd": {},
+            "snippets_python": {"qualified_module_name.txt": "dummy_sites"},
+            "sites": {"maxima": {"Item.name": a, "Square.short_label": b, "Container.first_label": c,
+                                 "Container.second_label": d}, "label_min": base_min,
+                      "class_order": [blk[0].split("class ", 1)[1].split("(")[0] for blk in blocks]}}
+
+
+def gen_sites_models(rng: random.Random, n: int) -> List[Dict[str, Any]]:
+    return [gen_sites_model(random.Random(rng.getrandbits(64)), i) for i in range(n)]
+
+
+def exception_site(exc: Optional[dict]) -> str:
+    """``<exception class>-in-<function>``: the innermost frame inside aas_core_codegen."""
+    if not exc:
+        return "unknown"
+    import re as _re
+    frames = _re.findall(r'File "([^"]*)", line \d+, in (\S+)', exc.get("traceback") or "")
+    fn = next((f for p, f in reversed(frames) if "aas_core_codegen" in p and "icontract" not in p), None)
+    return f"{exc.get('class')}-in-{fn or 'unknown'}"
